@@ -288,6 +288,9 @@ func features(p *basmgen.Program) []string {
 	}
 	if len(p.CPs) > 1 {
 		f["multi-cp"] = true
+		if p.SameLabelNames {
+			f["label-names-reused-across-sections"] = true
+		}
 	}
 	if p.GlobalIOMode != "" {
 		if (p.GlobalIOMode == "sync") == p.Sync {
